@@ -234,4 +234,81 @@ theorem qc_sorted_follows (f : Fragment) (subs : List Fragment) (hv : ∀ s ∈ 
   have hvs : ∀ s ∈ sortedSubs subs, s.start ≤ s.stop := fun s hs => hv s (hperm.mem_iff.mp hs)
   exact follows_of_abuts_sorted _ hvs hboth
 
+
+theorem coverCount_zero {l : List Fragment} {x : Int} (h : coverCount l x = 0) :
+    ∀ s ∈ l, ¬ (s.start ≤ x ∧ x ≤ s.stop) := by
+  intro s hs hc
+  unfold coverCount at h
+  have : l.filter (coversB x) = [] := List.length_eq_zero_iff.mp h
+  rw [List.filter_eq_nil_iff] at this
+  exact this s hs (by simp only [coversB]; exact decide_eq_true hc)
+
+theorem coverCount_one_unique (subs : List Fragment) (x : Int) (h : coverCount subs x = 1) :
+    (∃ s ∈ subs, s.start ≤ x ∧ x ≤ s.stop) ∧
+    ∀ (i j : Nat) (s t : Fragment), subs[i]? = some s → subs[j]? = some t →
+      (s.start ≤ x ∧ x ≤ s.stop) → (t.start ≤ x ∧ x ≤ t.stop) → i = j := by
+  induction subs with
+  | nil => simp [coverCount] at h
+  | cons a l ih =>
+    rw [coverCount_cons] at h
+    by_cases ha : a.start ≤ x ∧ x ≤ a.stop
+    · rw [if_pos ha] at h
+      have h0 : coverCount l x = 0 := by omega
+      have hz := coverCount_zero h0
+      refine ⟨⟨a, List.mem_cons_self .., ha⟩, ?_⟩
+      intro i j s t hi hj hs ht
+      cases i with
+      | zero =>
+        cases j with
+        | zero => rfl
+        | succ j' => exact absurd ht (hz t (List.mem_of_getElem? (by simpa using hj)))
+      | succ i' => exact absurd hs (hz s (List.mem_of_getElem? (by simpa using hi)))
+    · rw [if_neg ha] at h
+      obtain ⟨⟨s, hs, hc⟩, hu⟩ := ih (by omega)
+      refine ⟨⟨s, List.mem_cons_of_mem _ hs, hc⟩, ?_⟩
+      intro i j s t hi hj hs ht
+      cases i with
+      | zero => simp only [List.getElem?_cons_zero, Option.some.injEq] at hi; subst hi; exact absurd hs ha
+      | succ i' =>
+        cases j with
+        | zero => simp only [List.getElem?_cons_zero, Option.some.injEq] at hj; subst hj; exact absurd ht ha
+        | succ j' =>
+          have := hu i' j' s t (by simpa using hi) (by simpa using hj) hs ht
+          omega
+
+theorem qc_tiles_aux (f : Fragment) (subs : List Fragment) (hv : ∀ s ∈ subs, s.start ≤ s.stop)
+    (h : qcPasses f subs = true) :
+    subs ≠ [] ∧
+    (sortedSubs subs).Perm subs ∧ AdjRel Follows (sortedSubs subs) ∧
+    sumInts (subs.map Fragment.length) = f.length ∧
+    (∀ s ∈ subs, ∀ t ∈ subs, s.name = t.name) ∧
+    ((∀ s ∈ subs, f.start ≤ s.start ∧ s.stop ≤ f.stop) →
+      ∀ x, coverCount subs x = if f.start ≤ x ∧ x ≤ f.stop then 1 else 0) := by
+  obtain ⟨hne, hchain⟩ := qc_sorted_follows f subs hv h
+  obtain ⟨hlen, _⟩ := qcPasses_unfold f subs h
+  have hperm : (sortedSubs subs).Perm subs := stableSort_perm _ _
+  cases hs : sortedSubs subs with
+  | nil =>
+    rw [hs] at hperm
+    exact absurd hperm.symm.eq_nil hne
+  | cons a l =>
+    rw [hs] at hperm hchain
+    have hvs : ∀ s ∈ a :: l, s.start ≤ s.stop := fun s hs' => hv s (hperm.mem_iff.mp hs')
+    obtain ⟨last, hlast, hsum, hle, hall, hcnt⟩ := chain_facts a l hvs hchain
+    have hsum' : sumInts (subs.map Fragment.length) = last.stop - a.start + 1 := by
+      rw [← hsum]; exact sumInts_perm (hperm.map _).symm
+    refine ⟨hne, hperm, hchain, hlen.symm, ?_, ?_⟩
+    · intro s hs' t ht
+      have h1 := (hall s (hperm.mem_iff.mpr hs')).1
+      have h2 := (hall t (hperm.mem_iff.mpr ht)).1
+      exact h1.trans h2.symm
+    · intro hin x
+      have ha := hin a (hperm.mem_iff.mp (List.mem_cons_self ..))
+      have hl := hin last (hperm.mem_iff.mp (List.mem_of_getLast? hlast))
+      have : f.length = last.stop - a.start + 1 := by rw [hlen]; exact hsum'
+      unfold Fragment.length at this
+      have e1 : a.start = f.start := by omega
+      have e2 : last.stop = f.stop := by omega
+      rw [← coverCount_perm hperm x, hcnt x, e1, e2]
+
 end AgpTpf.C01
